@@ -288,6 +288,59 @@ theorem C09_from_member_then_marshal (zero : V) (fs : List Field) (member : List
     rw [this]
     by_cases hn : f.optNil = true <;> simp [hn]
 
+/-- **A union with additional properties**: unmarshal followed by marshal gives every member of a valid instance back with
+its value, provided the additional-properties type represents the members it captures exactly (`re v = v` for the members that
+are not own properties — the stored member's own fields are among them); and no additional property carries the name of an own
+property. -/
+theorem C09_union_additional_lossless (re : V → V) (zero : V) (fs : List Field) (o : List (String × V))
+    (hf : (fs.map (·.name)).Nodup) (ho : (o.map (·.1)).Nodup) (hv : Valid fs o)
+    (hre : ∀ kv ∈ o, declaredName fs kv.1 = false → re kv.2 = kv.2) (k : String) :
+    lookup (marshalA zero fs (unmarshalA re fs o)) k = lookup o k ∧
+    ∀ kv ∈ (unmarshalA re fs o).addl, declaredName fs kv.1 = false := by
+  constructor
+  · unfold marshalA unmarshalA
+    simp only
+    have hmap : ((o.filter fun kv => !declaredName fs kv.1).map fun kv => (kv.1, re kv.2)) =
+        o.filter fun kv => !declaredName fs kv.1 := by
+      have : ∀ l : List (String × V), (∀ kv ∈ l, kv ∈ o) →
+          ((l.filter fun kv => !declaredName fs kv.1).map fun kv => (kv.1, re kv.2)) = l.filter fun kv => !declaredName fs kv.1 := by
+        intro l
+        induction l with
+        | nil => intro _; rfl
+        | cons e t ih =>
+          intro hl
+          have ht := ih (fun kv h => hl kv (List.mem_cons_of_mem _ h))
+          by_cases hd : declaredName fs e.1 = true
+          · simp only [List.filter_cons, hd, Bool.not_true, Bool.false_eq_true, if_false]; exact ht
+          · have hd' : declaredName fs e.1 = false := by simpa using hd
+            simp only [List.filter_cons, hd', Bool.not_false, if_true, List.map_cons, ht]
+            rw [hre e (hl e List.mem_cons_self) hd']
+      exact this o (fun _ h => h)
+    rw [hmap]
+    have hnd : ((o.filter fun kv => !declaredName fs kv.1).map (·.1)).Nodup := ((List.filter_sublist).map _).nodup ho
+    rw [lookup_foldl_insert _ _ hnd, lookup_filter o (fun k => !declaredName fs k) k]
+    have hm := C09_unmarshal_marshal_lossless zero fs o hf hv k
+    unfold unmarshal at hm
+    rw [hm]
+    by_cases hd : declaredName fs k = true
+    · simp [hd]
+    · have hd' : declaredName fs k = false := by simpa using hd
+      simp only [hd', Bool.not_false, if_true]
+      cases lookup o k <;> rfl
+  · intro kv h
+    unfold unmarshalA at h
+    simp only [List.mem_map, List.mem_filter, Bool.not_eq_true'] at h
+    obtain ⟨e, ⟨_, hd⟩, rfl⟩ := h
+    exact hd
+
+/-- The recorded finding as a statement about the model (replayed on the code: `lossless-big-integer:…:addl=true`): a member
+the additional-properties type does not represent exactly — an integer beyond 2^53 decoded into `interface{}` — comes back
+changed, even when it is a declared property of the stored member. -/
+theorem C09_union_additional_inexact_member_witness :
+    let re : String → String := fun v => if v = "9007199254740993" then "9007199254740992" else v
+    marshalA "null" [⟨"meta", true⟩] (unmarshalA re [⟨"meta", true⟩] [("kind", "\"BigCat\""), ("size", "9007199254740993"), ("meta", "\"m\"")]) =
+      [("kind", "\"BigCat\""), ("size", "9007199254740992"), ("meta", "\"m\"")] := by decide
+
 /-- non-vacuity: own properties `meta` (optional) and `name` (required, nullable) over a stored cat -/
 example : marshal "null" [⟨"meta", true⟩, ⟨"name", false⟩] (fromMember (fresh [⟨"meta", true⟩, ⟨"name", false⟩]) [("kind", "\"cat\""), ("name", "\"Tom\"")]) =
     [("kind", "\"cat\""), ("name", "null")] := by decide
